@@ -9,7 +9,7 @@ CHECKS = {
         text='Trace validation of the emitted C against the TLA+ machine specification (NmfuMachine) at two grains: StepTrace validates, for '
              'every state index of every program under forced data contexts, the outcome of every single byte 0..255 and of end(); ApiTrace '
              'validates guided multi-byte walks call by call (return code, pointer advance, state index, every output cell, hook calls with '
-             'snapshots). TLC evaluates the specification for each recorded step, so the binding is exact per step and exhaustive over symbols.',
+             'snapshots). TLC evaluates the specification for each recorded step, so the binding is exact per step and exhaustive over symbols. Inputs are guided walks plus specification-guided inputs: Cover.tla (TLC, breadth first) yields the shortest input reaching every distinguishable single step (state, symbol cell, successor, result, events, changed outputs - e.g. each out-of-space redirect) of each exported machine, and those are replayed on the binary.',
         note='Programs are the repository corpus plus seeded generated programs (not all programs); data contexts are sampled; steps whose '
              'arithmetic leaves the modelled 32-bit range are skipped and counted. Trusted: TLC, gcc, the exporter (reads DfaCompileCtx.dfa as data) and the C driver.',
         technique='TLA+ machine spec + TLC trace validation (single-step sweeps and call traces)', thorough=True),
@@ -18,7 +18,7 @@ CHECKS = {
         text='Every run of one (program, input) under every chunking (all 2^(n-1) compositions for short inputs; whole, all-ones, every single '
              'cut point and random splits for long ones; direct, indirect and yield builds) is validated by TLC against the same deterministic, '
              'byte-at-a-time machine specification, which has exactly one behaviour per input: acceptance of all chunkings implies identical '
-             'observables. The chunking-independent summary (hooks with snapshots, codes with absolute offsets, final outputs) is also compared directly.',
+             'observables. The chunking-independent summary (hooks with snapshots, codes with absolute offsets, final outputs) is also compared directly. Inputs are guided walks plus specification-guided inputs: Cover.tla (TLC, breadth first) yields the shortest input reaching every distinguishable single step (state, symbol cell, successor, result, events, changed outputs - e.g. each out-of-space redirect) of each exported machine, and those are replayed on the binary.',
         note='Chunk independence of the specification itself holds by construction (ByteStep is per byte); programs and inputs are sampled. '
              'Direct-pointer builds expose no consumed count.',
         technique='TLC trace validation of all chunkings against one deterministic TLA+ machine spec', thorough=True),
@@ -27,7 +27,7 @@ CHECKS = {
         text='The TLA+ store models every string cell by cell (buffer cells, counter, allocation cell inline/heap/null) for all storage modes. '
              'MachineMC explores each exported machine and reports null/freed dereferences and breaches of the capacity contract; ApiTrace and StepTrace '
              'validate sanitizer builds so that after every call (and from forced empty/near-full/full contexts for every byte) each buffer, counter, '
-             'terminator and pointer state equals the specification cell, and _free releases every block exactly once.',
+             'terminator and pointer state equals the specification cell, and _free releases every block exactly once. Inputs are guided walks plus specification-guided inputs: Cover.tla (TLC, breadth first) yields the shortest input reaching every distinguishable single step (state, symbol cell, successor, result, events, changed outputs - e.g. each out-of-space redirect) of each exported machine, and those are replayed on the binary.',
         note='A TLA+ specification cannot state that C text is free of undefined behaviour: clang ASan + memory-related UBSan checks + LSan act as an external '
              'tripwire inside the trace recorder (an abort truncates the trace, which is then a violation). Arithmetic UB of user expressions is outside the property. '
              'malloc is assumed not to fail.',
@@ -37,7 +37,7 @@ CHECKS = {
         text='MachineMC: TLC explores every exported machine under the API protocol over all symbol cells (bounded length), including end() at any point and '
              'calls after FAIL, reporting OK-without-consuming and FAIL-not-absorbing steps, each replayed on the binary before it counts. ApiTrace validates recorded '
              'call histories (all chunkings of short inputs, re-invocation after every yield as example/lexer_test.c does, calls after terminal results, end) '
-             'clause by clause: return code and *start after every call against the consumed-byte count of the specification.',
+             'clause by clause: return code and *start after every call against the consumed-byte count of the specification. Inputs are guided walks plus specification-guided inputs: Cover.tla (TLC, breadth first) yields the shortest input reaching every distinguishable single step (state, symbol cell, successor, result, events, changed outputs - e.g. each out-of-space redirect) of each exported machine, and those are replayed on the binary.',
         note='Length-bounded exploration; "DONE/finish codes exactly when the program finishes" is decided against the machine here and against the source semantics in C01. '
              'Calls after DONE are unconstrained (property text).',
         technique='TLC exploration of the API protocol over exported machines + TLC trace validation of call histories', thorough=True),
@@ -45,7 +45,7 @@ CHECKS = {
         category='model_checking', design_ref='6/C12',
         text='One program and input set, binaries for every row of a covering array (pairs quick, triples thorough) over storage mode, char/u8, hook placement, '
              'user pointer, packed enums, guard style, pointer mode, zero-length support and range-collapse threshold. Each trace is validated by TLC against the '
-             'specification of its own build (whose store models the representation), and the representation-independent observables are compared across rows.',
+             'specification of its own build (whose store models the representation), and the representation-independent observables are compared across rows. Inputs are guided walks plus specification-guided inputs: Cover.tla (TLC, breadth first) yields the shortest input reaching every distinguishable single step (state, symbol cell, successor, result, events, changed outputs - e.g. each out-of-space redirect) of each exported machine, and those are replayed on the binary.',
         note='Covering array, not all subsets; programs and inputs sampled.',
         technique='TLC trace validation per option row + cross-row comparison of observables', thorough=True),
     'C19': dict(
